@@ -1,7 +1,7 @@
 """C07 -- conditionals (TexCond.tla) and \\expandafter / \\noexpand (TexExpand.tla)."""
 import json
 from vlib import *
-from texvm import texvm_part, texvm_selftest
+from texvm import texvm_part, texvm_selftest, texvm_consistency
 
 LEVEL = "model_checking"
 EXP_DEVS = {"noexpand-lost-under-expandafter": "Trace_TexExpand_dev.cfg"}
@@ -82,6 +82,7 @@ def run(ctx):
         "streams on which TeX itself hits end of input after \\expandafter/\\noexpand are skipped (C09's domain)",
     ]
     # ---- the composed model: whole programs over the full primitive set (TexVM.tla) ------------
+    texvm_consistency(ctx, "cond")
     texvm_part(ctx, 6000 if ctx.quick else 120000, 707)
 
 
